@@ -9,6 +9,10 @@ import (
 // effect (writes only to objects allocated inside the arm) is evaluated on
 // both arms and joined with ite instead of forking the path.
 
+// exitSentinel stands for the function's virtual exit as a merge join: arms
+// that all end in Return are merged into one returned ite value.
+var exitSentinel = &ssa.BasicBlock{Comment: "exit"}
+
 type pdomInfo struct {
 	ipdom []int // block index -> immediate postdominator index, -1 = exit
 }
@@ -116,8 +120,16 @@ func regionOK(start, join *ssa.BasicBlock, limit int) bool {
 			return true
 		}
 		count++
-		if count > limit || len(b.Succs) == 0 {
+		if count > limit {
 			return false
+		}
+		if len(b.Succs) == 0 {
+			if join != exitSentinel {
+				return false
+			}
+			_, isRet := b.Instrs[len(b.Instrs)-1].(*ssa.Return)
+			state[b] = 2
+			return isRet
 		}
 		state[b] = 1
 		for _, s := range b.Succs {
@@ -138,14 +150,25 @@ func (p *Path) tryMerge(fr *Frame, in *ssa.If, cond *Term, outerStop *ssa.BasicB
 	b := in.Block()
 	pi := p.eng.postdoms(fr.fn)
 	j := pi.ipdom[b.Index]
+	var join *ssa.BasicBlock
 	if j < 0 {
-		return false
+		if outerStop != nil && outerStop != exitSentinel {
+			return false
+		}
+		if fr.fn.Recover != nil || len(fr.defers) > 0 && false {
+			return false
+		}
+		join = exitSentinel
+	} else {
+		join = fr.fn.Blocks[j]
 	}
-	join := fr.fn.Blocks[j]
 	if !regionOK(b.Succs[0], join, 12) || !regionOK(b.Succs[1], join, 12) {
 		return false
 	}
 	nphi := 0
+	if join == exitSentinel {
+		nphi = 1
+	}
 	for _, ins := range join.Instrs {
 		if _, ok := ins.(*ssa.Phi); ok {
 			nphi++
@@ -187,6 +210,14 @@ func (p *Path) tryMerge(fr *Frame, in *ssa.If, cond *Term, outerStop *ssa.BasicB
 			p.guard, p.noFork = g, true
 			fr.prev = b
 			p.runBlocks(fr, b.Succs[arm], join)
+			if join == exitSentinel {
+				if !fr.hasPendingRet {
+					panic(mergeAbort{"arm did not return"})
+				}
+				vals[arm] = []Value{fr.pendingRet}
+				fr.pendingRet, fr.hasPendingRet = nil, false
+				continue
+			}
 			if fr.hasPending {
 				// an inner merge already joined at the same block
 				vals[arm] = fr.pendingPhi
@@ -213,7 +244,9 @@ func (p *Path) tryMerge(fr *Frame, in *ssa.If, cond *Term, outerStop *ssa.BasicB
 		for i := 0; i < nphi; i++ {
 			merged[i] = p.iteValue(cond, vals[0][i], vals[1][i])
 		}
-		if join == outerStop {
+		if join == exitSentinel {
+			fr.pendingRet, fr.hasPendingRet = merged[0], true
+		} else if join == outerStop {
 			fr.pendingPhi, fr.hasPending = merged, true
 		} else {
 			for i := 0; i < nphi; i++ {
@@ -227,6 +260,7 @@ func (p *Path) tryMerge(fr *Frame, in *ssa.If, cond *Term, outerStop *ssa.BasicB
 	fr.curInstr = saveInstr
 	if !ok {
 		fr.pendingPhi, fr.hasPending, fr.phiDone = nil, false, false
+		fr.pendingRet, fr.hasPendingRet = nil, false
 		p.events = p.events[:nEvents]
 		p.inputs = p.inputs[:nInputs]
 		p.violations = p.violations[:nViol]
